@@ -204,7 +204,12 @@ class SocketServer_Threadpool(object):
             try:
                 self.pool.process(job)
             except NoFreeWorkersError:
-                job.denyConnection("no free workers, increase server threadpool size")
+                try:
+                    job.denyConnection("no free workers, increase server threadpool size")
+                except Exception as x:
+                    # the refused client may already be gone: that must not end the server loop
+                    log.warning("error while denying connection from %s: %s", caddr, x)
+                    job.csock.close()
 
     def shutdown(self):
         self.shutting_down = True
